@@ -83,6 +83,7 @@ type decor struct {
 	mu   sync.Mutex
 	plan []stat
 	j    int
+	win  int // writes made after Watch has returned and before the consumer side takes the replayed event
 	id   configapi.TransactionID
 	wg   sync.WaitGroup
 }
@@ -124,12 +125,26 @@ func (d *decor) Watch(ctx context.Context, ch chan<- configapi.TransactionEvent,
 		return err
 	}
 	d.mu.Lock()
-	plan, j, id := d.plan, d.j, d.id
+	plan, j, win, id := d.plan, d.j, d.win, d.id
 	d.mu.Unlock()
+	if j+win > len(plan) {
+		win = len(plan) - j
+	}
 	d.wg.Add(1)
 	go func() {
 		defer d.wg.Done()
 		defer close(ch)
+		if win > 0 {
+			// a slow consumer: Watch has returned (the store's goroutine reads the replay and parks on handing it over),
+			// the controllers write on, only then does the consumer start taking events.  Nothing written after Watch
+			// returned may be lost — in particular not the write that finishes the transaction.
+			time.Sleep(15 * time.Millisecond)
+			for i := j; i < j+win; i++ {
+				d.apply(id, plan[i])
+			}
+			time.Sleep(15 * time.Millisecond)
+			j += win
+		}
 		first := true
 		for e := range inner {
 			select {
@@ -325,8 +340,12 @@ func (r *real) Exec(line string) (out string) {
 		if err != nil || dl <= 0 {
 			dl = 300
 		}
+		win := 0
+		if ws, ok := argOf(args, "win"); ok {
+			win, _ = strconv.Atoi(ws)
+		}
 		r.d.mu.Lock()
-		r.d.plan, r.d.j = plan, j
+		r.d.plan, r.d.j, r.d.win = plan, j, win
 		r.d.mu.Unlock()
 		ctx, cancel := context.WithTimeout(context.Background(), time.Duration(dl)*time.Millisecond)
 		defer cancel()
@@ -498,7 +517,7 @@ func genChange(r *rng.R) string {
 	return strings.Join(items, ";")
 }
 
-func runLine(h string, sync bool, j int, p []string, change string, idx int) string {
+func runLine(h string, sync bool, j int, p []string, change string, idx int, wins ...int) string {
 	s := "0"
 	if sync {
 		s = "1"
@@ -510,9 +529,13 @@ func runLine(h string, sync bool, j int, p []string, change string, idx int) str
 	}
 	dl := 250
 	if finished(effSync, last) {
-		dl = 4000
+		dl = 2500
 	}
-	return fmt.Sprintf("wait.run h=%s sync=%s j=%d path=%s change=%s idx=%d deadline=%d", h, s, j, strings.Join(p, ","), change, idx, dl)
+	win := 0
+	if len(wins) > 0 {
+		win = wins[0]
+	}
+	return fmt.Sprintf("wait.run h=%s sync=%s j=%d win=%d path=%s change=%s idx=%d deadline=%d", h, s, j, win, strings.Join(p, ","), change, idx, dl)
 }
 
 func gen(r *rng.R, tier string) fw.Case {
@@ -532,7 +555,17 @@ func gen(r *rng.R, tier string) fw.Case {
 		if j > 0 {
 			nt = true
 		}
-		s = append(s, runLine(h, sync, j, p, change, i+1), "wait.real.stored")
+		win := 0
+		if j < len(p) && r.Chance(2, 5) {
+			// the remaining writes (often: up to and including the one that finishes the transaction) race the subscribe step
+			win = r.Range(1, len(p)-j)
+			if r.Bool() {
+				win = len(p) - j
+			}
+			tags = append(tags, "writes-during-subscribe")
+			nt = true
+		}
+		s = append(s, runLine(h, sync, j, p, change, i+1, win), "wait.real.stored")
 		tags = append(tags, "h:"+h, map[bool]string{true: "sync", false: "async"}[sync])
 		switch {
 		case j == 0:
@@ -574,6 +607,11 @@ func enumerate(tier string) []fw.Case {
 					}
 					out = append(out, fw.Case{Script: []string{runLine(h, sync, j, p, ch, 1), "wait.real.stored"},
 						Tags: []string{"enum", "h:" + h}, Nontrivial: j > 0})
+					if j < len(p) && (len(p) < 3 || p[len(p)-1] == "A" || p[len(p)-1] == "F7") {
+						// every remaining write, the finishing one included, lands between the replay read and the consumer's first read
+						out = append(out, fw.Case{Script: []string{runLine(h, sync, j, p, ch, 1, len(p)-j), "wait.real.stored"},
+							Tags: []string{"enum-writes-during-subscribe", "h:" + h}, Nontrivial: true})
+					}
 				}
 			}
 		}
@@ -722,7 +760,7 @@ func monitor(c fw.Case, out []string) []string {
 var Prop = &fw.Prop{
 	ID: "C08",
 	Rule: "1-3 requests per case on one real v2 transaction store: Set (1-4 updates/deletes on 1-2 targets) or RollbackTransaction, synchronous/asynchronous, " +
-		"a scripted status path (canonical paths of the transaction state machine with repeated phase writes, failure at initialize/validate/apply with every failure class, " +
+		"optionally the next `win` writes — up to the finishing one — made after Watch has returned and before the consumer takes the replayed event (subscribe step racing the controllers), a scripted status path (canonical paths of the transaction state machine with repeated phase writes, failure at initialize/validate/apply with every failure class, " +
 		"nil and out-of-range classes, stuck paths, arbitrary paths), the first j status writes performed inside Create (before the handler subscribes), the rest after the " +
 		"replayed event; plus the enumeration of both handlers x sync/async x every canonical path x every j. Non-trivial = j > 0; distinct = distinct script.",
 	Quick: 500, Thorough: 8000, Workers: 8,
@@ -775,7 +813,11 @@ func shrinkCase(c fw.Case) []fw.Case {
 			if j > len(p) {
 				j = len(p)
 			}
-			s = append(s, runLine(m["h"], m["sync"] == "1", j, p, m["change"], i+1), "wait.real.stored")
+			win, _ := strconv.Atoi(m["win"])
+			if j+win > len(p) {
+				win = len(p) - j
+			}
+			s = append(s, runLine(m["h"], m["sync"] == "1", j, p, m["change"], i+1, win), "wait.real.stored")
 		}
 		return fw.Case{Script: s, Tags: c.Tags, Nontrivial: c.Nontrivial, Origin: c.Origin}
 	}
